@@ -181,10 +181,11 @@ def grammar_ok(cmds):
 class ArcStub:
     """replaces Arc._svg_parameterize by a recorder (arc geometry is C05's subject)"""
 
-    def __init__(self, S):
+    def __init__(self, S, sweep_fn=None):
         self.S = S
         self.calls = []
         self.orig = S.Arc._svg_parameterize
+        self.sweep_fn = sweep_fn
 
     def __enter__(self):
         stub = self
@@ -196,7 +197,7 @@ class ArcStub:
             arc.center = S.Point(0, 0)
             arc.prx = S.Point(0, 0)
             arc.pry = S.Point(0, 0)
-            arc.sweep = 0
+            arc.sweep = stub.sweep_fn(len(stub.calls)) if stub.sweep_fn else 0
             arc._symx_args = (rx, ry, rotation, bool(fa), bool(fs))
             stub.calls.append(arc)
         self.S.Arc._svg_parameterize = rec
